@@ -19,6 +19,7 @@ import (
 type groupsRun struct {
 	f     *flamego.Flame
 	trace []int
+	wrap  bool // a HandlerWrapper is installed and the handlers have no fast invoker
 }
 
 func (gr *groupsRun) handlers(hs *Sx) []flamego.Handler {
@@ -27,7 +28,14 @@ func (gr *groupsRun) handlers(hs *Sx) []flamego.Handler {
 	out := make([]flamego.Handler, 0, len(ids)+3)
 	for _, x := range ids {
 		id := x.Int()
-		out = append(out, func(c flamego.Context) { gr.trace = append(gr.trace, id) })
+		switch {
+		case id == 0: // not a function: every registration that carries it must panic
+			out = append(out, 42)
+		case gr.wrap: // func() has no fast invoker, so the HandlerWrapper gets it
+			out = append(out, func() { gr.trace = append(gr.trace, id) })
+		default:
+			out = append(out, func(c flamego.Context) { gr.trace = append(gr.trace, id) })
+		}
 	}
 	return out
 }
@@ -36,20 +44,30 @@ func (gr *groupsRun) exec(stmts []*Sx) {
 	f := gr.f
 	for _, s := range stmts {
 		a := s.Args()
+		hdr := false // a trailing (hdr 1): .Headers("X-Gate", "") on what the statement returns
+		if n := len(a); n > 0 && a[n-1].Tag() == "hdr" {
+			hdr = a[n-1].Args()[0].Atom == "1"
+			a = a[:n-1]
+		}
+		gate := func(r *flamego.Route) {
+			if hdr {
+				r.Headers("X-Gate", "")
+			}
+		}
 		switch s.Tag() {
 		case "route":
-			f.Route(a[0].Atom, a[1].Bytes(), gr.handlers(a[2]))
+			gate(f.Route(a[0].Atom, a[1].Bytes(), gr.handlers(a[2])))
 		case "get":
-			f.Get(a[0].Bytes(), gr.handlers(a[1])...)
+			gate(f.Get(a[0].Bytes(), gr.handlers(a[1])...))
 		case "routes":
 			var hs []flamego.Handler
 			for _, m := range a[2].Args() {
 				hs = append(hs, m.Bytes())
 			}
 			hs = append(hs, gr.handlers(a[3])...)
-			f.Routes(a[0].Bytes(), a[1].Bytes(), hs...)
+			gate(f.Routes(a[0].Bytes(), a[1].Bytes(), hs...))
 		case "any":
-			f.Any(a[0].Bytes(), gr.handlers(a[1])...)
+			gate(f.Any(a[0].Bytes(), gr.handlers(a[1])...))
 		case "group":
 			body := a[2].Args()
 			f.Group(a[0].Bytes(), func() { gr.exec(body) }, gr.handlers(a[1])...)
@@ -90,6 +108,16 @@ func (gr *groupsRun) exec(stmts []*Sx) {
 
 func runGroups(in *Sx) *Sx {
 	gr := &groupsRun{f: flamego.NewWithLogger(io.Discard)}
+	if w := in.Field("wrap"); w != nil && w.Args()[0].Atom == "1" {
+		gr.wrap = true
+		gr.f.HandlerWrapper(func(h flamego.Handler) flamego.Handler {
+			fn, ok := h.(func())
+			if !ok {
+				return h
+			}
+			return func() { gr.trace = append(gr.trace, 0); fn() }
+		})
+	}
 	status := T("ok")
 	func() {
 		defer func() {
@@ -111,6 +139,9 @@ func runGroups(in *Sx) *Sx {
 		var params flamego.Params
 		gr.f.Action(func(c flamego.Context) { params = c.Params() })
 		req := &http.Request{Method: pr.Args()[0].Bytes(), URL: &url.URL{Path: pr.Args()[1].Bytes()}, Header: http.Header{}, Proto: "HTTP/1.1"}
+		if len(pr.Args()) > 2 {
+			req.Header.Set("X-Gate", "on")
+		}
 		w := &wireWriter{hdr: http.Header{}}
 		gr.f.ServeHTTP(w, req)
 		if w.status == 404 && params == nil {
@@ -141,6 +172,16 @@ type groupsGen struct {
 	nextR    int
 	probes   []*Sx
 	rootUsed map[string]bool
+	gated    bool // some statement carries (hdr 1)
+}
+
+// hdr decides whether a statement is followed by .Headers(...) on its result
+func (g *groupsGen) hdr(s *Sx) *Sx {
+	if g.rng.Intn(4) == 0 {
+		g.gated = true
+		s.List = append(s.List, T("hdr", B(true)))
+	}
+	return s
 }
 
 func (g *groupsGen) hs(max int) *Sx {
@@ -148,6 +189,9 @@ func (g *groupsGen) hs(max int) *Sx {
 	for k := g.rng.Intn(max + 1); k > 0; k-- {
 		g.nextH++
 		ids = append(ids, I(g.nextH))
+	}
+	if g.rng.Intn(120) == 0 { // a handler that is not a function
+		ids = append(ids, I(0))
 	}
 	return T("hs", ids...)
 }
@@ -211,10 +255,10 @@ func (g *groupsGen) stmts(depth int, prefix string, n int) []*Sx {
 		switch r := rng.Intn(20); {
 		case r < 4:
 			m := ms[rng.Intn(len(ms))]
-			out = append(out, T("route", A(m), X(path), g.hs(2)))
+			out = append(out, g.hdr(T("route", A(m), X(path), g.hs(2))))
 			g.probe([]string{m, "GET", "HEAD"}, prefix, full)
 		case r < 8:
-			out = append(out, T("get", X(path), g.hs(2)))
+			out = append(out, g.hdr(T("get", X(path), g.hs(2))))
 			g.probe([]string{"GET", "HEAD", "POST"}, prefix, full)
 		case r < 10:
 			lists := []string{"GET,POST", "GET, PUT ,DELETE", "HEAD", " PATCH"}
@@ -225,10 +269,10 @@ func (g *groupsGen) stmts(depth int, prefix string, n int) []*Sx {
 			if rng.Intn(2) == 0 {
 				extra = append(extra, X("OPTIONS"))
 			}
-			out = append(out, T("routes", X(path), X(lists[rng.Intn(len(lists))]), T("extra", extra...), g.hs(2)))
+			out = append(out, g.hdr(T("routes", X(path), X(lists[rng.Intn(len(lists))]), T("extra", extra...), g.hs(2))))
 			g.probe([]string{"GET", "POST", "PUT", "DELETE", "HEAD", "PATCH", "OPTIONS"}, prefix, full)
 		case r < 11:
-			out = append(out, T("any", X(path), g.hs(2)))
+			out = append(out, g.hdr(T("any", X(path), g.hs(2))))
 			g.probe([]string{"GET", "TRACE", "HEAD"}, prefix, full)
 		case r < 15 && depth < 3:
 			gp := []string{fmt.Sprintf("/g%d", g.nextR), "", fmt.Sprintf("/{gid%d}", g.nextR), fmt.Sprintf("/g%d/x", g.nextR)}[rng.Intn(4)]
@@ -265,7 +309,12 @@ func genC11(rng *rand.Rand, n int, tier string, emit func(*Sx)) {
 		if rng.Intn(25) == 0 { // Combo refuses the same method twice
 			prog = append(prog, T("combo", X("/dup"), T("hs"), T("use", A("GET"), T("hs", I(901))), T("use", A("POST"), T("hs", I(902))), T("use", A("GET"), T("hs", I(903)))))
 		}
-		emit(T("in", T("prog", prog...), T("probes", g.probes...)))
+		if g.gated { // every probe also with the gating header
+			for _, pr := range append([]*Sx(nil), g.probes...) {
+				g.probes = append(g.probes, T("probe", pr.Args()[0], pr.Args()[1], T("gate")))
+			}
+		}
+		emit(T("in", T("prog", prog...), T("probes", g.probes...), T("wrap", B(rng.Intn(3) == 0))))
 	}
 }
 
